@@ -179,12 +179,22 @@ impl OutcomeTx {
     pub fn send(self, r: Result<(), Error>) -> (o: Result<(), Result<(), Error>>)
         requires
             self.owes_ok@ ==> r is Ok,                                                                                  // [C12.result.clean-close-reported-clean] a close handshake that completed without an error on either side is reported as Ok -- whatever happens when the byte stream is shut down afterwards
-            self.owes_peer_error@ is Some ==> r == Err::<(), Error>(Error::RemoteClosedWithError(self.owes_peer_error@->Some_0)),   // [C12.result.peer-error-reported] the error the peer closed with is what the handle reports
+            self.owes_peer_error@ is Some ==> r == Err::<(), Error>(Error::RemoteClosedWithError(self.owes_peer_error@->Some_0)),   // [C12.result.peer-error-reported] [C14.handle.reports-peer-error] the error the peer closed with is what the handle reports
     { unimplemented!() }
 }
 impl ConnCtlRx {
+    /// `self.control.close()` at the end of the event loop: from here on every handle operation fails on the closed channel and reads the stop reason
     #[verifier::external_body]
-    pub fn close(&mut self) { unimplemented!() }
+    pub fn close_published(&mut self, Ghost(published): Ghost<bool>)
+        requires published,      // [C14.stop-reason.published-before-channels-close] the reason why the connection stopped is published BEFORE the channels are closed: a session or handle that wakes up on the closed channel reads the cell at once, and must not find it empty (it would report a plain Closed / IllegalState instead of the peer's error or the transport failure)
+    { unimplemented!() }
+}
+impl<T> ChanReceiver<T> {
+    #[verifier::external_body]
+    pub fn close_published(&mut self, Ghost(published): Ghost<bool>)
+        requires published,      // [C14.stop-reason.published-before-channels-close]
+        ensures final(self).queue@ == old(self).queue@, final(self).closed@,
+    { unimplemented!() }
 }
 /// Result::and (std)
 pub assume_specification<T, E, U>[ Result::<T, E>::and ](r: Result<T, E>, o: Result<U, E>) -> (x: Result<U, E>)
@@ -600,6 +610,8 @@ impl ConnectionEngine {
 //@@ addparam outcome: Result<(), ConnectionInnerError>
 //@@ param tx : OutcomeTx
 //@@ subst `(mut self,` => `(&mut self,` rule=R32
+//@@ subst `self.control.close();` => `self.control.close_published(Ghost(self.connection.stop_set@ is Some));` rule=R9
+//@@ subst `self.outgoing_session_frames.close();` => `self.outgoing_session_frames.close_published(Ghost(self.connection.stop_set@ is Some));` rule=R9
 //@@ subst `self.transport.close().map_err(Into::into)` => `self.transport.close().map_err(|e: TransportError| -> (o: ConnectionInnerError) ensures o == transport_err_to_inner(e) { e.err_into() })` rule=R17
 //@@ subst `outcome.and(close).map_err(Into::into)` => `outcome.and(close).map_err(|e: ConnectionInnerError| -> (o: Error) ensures o == inner_to_error(e) { inner_into_error(e) })` rule=R17
 //@@ spec
@@ -607,7 +619,7 @@ impl ConnectionEngine {
         tx.owes_ok@ == (outcome is Ok && old(self).connection.st is End),             // the event loop ended with the close handshake complete (END) and no handler reported an error
         tx.owes_peer_error@ == (if outcome is Err && outcome->Err_0 is RemoteClosedWithError { Some(outcome->Err_0->RemoteClosedWithError_0) } else { None::<AmqpError> }),
     ensures
-        outcome is Err && outcome->Err_0 is RemoteClosedWithError ==> final(self).connection.stop_set@ == Some(ConnectionStopReason::RemoteClosedWithError(outcome->Err_0->RemoteClosedWithError_0)),   // [C12.stop-reason.peer-error] sessions and links are told the peer's error too
+        outcome is Err && outcome->Err_0 is RemoteClosedWithError ==> final(self).connection.stop_set@ == Some(ConnectionStopReason::RemoteClosedWithError(outcome->Err_0->RemoteClosedWithError_0)),   // [C12.stop-reason.peer-error] [C14.stop-reason.says-who-stopped-and-why] sessions and links are told the peer's error too
         outcome is Err && outcome->Err_0 is RemoteClosed ==> final(self).connection.stop_set@ == Some(ConnectionStopReason::RemoteClosed),
         final(self).transport.sent@ == old(self).transport.sent@,                                                        // [C12.nothing-after-close] tearing the engine down writes no frame
 //@@ end
